@@ -7,11 +7,38 @@ package memory
 //@ spec second() int64 = 1000000000
 //@ spec anyWord(o uint64, n uint64) bool = true
 
-// fetchVal returns the (lazily created) record of a key: never nil, and the same record for the same key.
-//@ spec recordOf(m *MemoryKV, key string) *kvValue
+// ---- representation: hash -> (key -> record); a record holds the simple value (pointer to a
+// byte slice, nil slice = absent), the lease token (0 = none) and the set of prefix children.
+//@ macro hashOf(m *MemoryKV, k string) uint64 = dyncall(m.hashFn, k, "uint64")
+//@ macro stored(m *MemoryKV, k string) bool = m.s.keys[hashOf(m, k)] && m.s.m[hashOf(m, k)] != nil && m.s.m[hashOf(m, k)].keys[k]
+//@ macro rec(m *MemoryKV, k string) *kvValue = m.s.m[hashOf(m, k)].m[k]
+//@ macro recOK(v *kvValue) bool = v != nil && allocated(v) && v.children != nil && allocated(v.children) && v.simple.v != nil
+//@ macro repOK(m *MemoryKV) bool = m.s != nil && (forall h uint64 {m.s.m[h]} :: m.s.keys[h] ==> (m.s.m[h] != nil && allocated(m.s.m[h])))
+//@      && (forall h uint64, k string {m.s.m[h].m[k]} :: (m.s.keys[h] && m.s.m[h].keys[k]) ==> (recOK(m.s.m[h].m[k]) && hashOf(m, k) == h))
+//@      && (forall h1, h2 uint64 {m.s.m[h1], m.s.m[h2]} :: (m.s.keys[h1] && m.s.keys[h2] && m.s.m[h1] == m.s.m[h2]) ==> h1 == h2)
+//@      && (forall h1, h2 uint64, k1, k2 string {m.s.m[h1].m[k1], m.s.m[h2].m[k2]} :: (m.s.keys[h1] && m.s.m[h1].keys[k1] && m.s.keys[h2] && m.s.m[h2].keys[k2] && m.s.m[h1].m[k1] == m.s.m[h2].m[k2]) ==> k1 == k2)
+
+//@ func newValueFunc() (v *kvValue)
+//@   ensures fresh-empty-record: v != nil && fresh(v) && v.children != nil && fresh(v.children) && v.simple.v != nil && fresh(v.simple.v) && deref(v.simple.v, "[]byte") == nil && v.lease.v == 0
+//@   ensures no-children: forall c string :: !v.children.keys[c]
+//@   ensures allocated-parts: allocated(v) && allocated(v.children)
+
+//@ func newInnerMapFunc() (r *skipmap.StringMap[*kvValue])
+//@   ensures r != nil && fresh(r) && allocated(r) && (forall k string :: !r.keys[k])
+
 //@ func (m *MemoryKV) fetchVal(key []byte) (v *kvValue, loaded bool)
-//@   trusted
-//@   ensures v != nil && v == recordOf(m, str(key))
+//@   opt puredyn=content
+//@   opt frame=off
+//@   requires repOK(m)
+//@   ensures representation-kept: repOK(m)
+//@   ensures record-of-the-key: stored(m, str(key)) && v == rec(m, str(key)) && recOK(v)
+//@   ensures existing-record-is-returned: old(stored(m, str(key))) ==> v == old(rec(m, str(key)))
+//@   ensures new-record-is-empty: !old(stored(m, str(key))) ==> (fresh(v) && fresh(v.children) && fresh(v.simple.v) && deref(v.simple.v, "[]byte") == nil && v.lease.v == 0 && (forall c string :: !v.children.keys[c]))
+//@   ensures other-keys-untouched: forall k string {rec(m, k)} :: (k != str(key) && old(stored(m, k))) ==> (stored(m, k) && rec(m, k) == old(rec(m, k)))
+//@   ensures no-key-appears-except-this-one: forall k string {rec(m, k)} :: (k != str(key) && stored(m, k)) ==> old(stored(m, k))
+//@   ensures existing-records-untouched: forall r *kvValue {r.lease.v} :: !fresh(r) ==> (r.simple.v == old(r.simple.v) && r.lease.v == old(r.lease.v) && r.children == old(r.children))
+//@   ensures existing-values-untouched: forall q *[]byte {deref(q)} :: !fresh(q) ==> deref(q) == old(deref(q))
+//@   ensures existing-children-untouched: forall c *skipset.StringSet {c.keys} :: !fresh(c) ==> c.keys == old(c.keys)
 
 // ---- C19: leases
 
@@ -22,6 +49,8 @@ package memory
 
 //@ func (m *MemoryKV) Acquire(ctx context.Context, lease []byte, ttl time.Duration) (token uint64, err error)
 //@   opt frame=off
+//@   opt puredyn=content
+//@   requires repOK(m)
 //@   opt rg=anyWord
 //@   safety nil,bounds
 //@   ghost now int64 = 0
@@ -30,13 +59,15 @@ package memory
 //@   requires ttl >= 0
 //@   ensures short-ttl-refused: (ttl - ttl % 1000000000 < 1000000000) ==> (err == chord.ErrKVLeaseInvalidTTL && token == 0)
 //@   ensures local-granted-only-when-free-or-expired: err == nil ==> (cas_seen == load_seen && (cas_seen == 0 || cas_seen <= uint64(now)))
-//@   ensures local-grant-installs-the-new-token: err == nil ==> (recordOf(m, str(lease)).lease.v == token && token == uint64(now + (ttl - ttl % 1000000000)) && token > uint64(now))
+//@   ensures local-grant-installs-the-new-token: err == nil ==> (rec(m, str(lease)).lease.v == token && token == uint64(now + (ttl - ttl % 1000000000)) && token > uint64(now))
 //@   ensures local-refusal-leaves-the-lease: (err != nil && ttl - ttl % 1000000000 >= 1000000000 && load_seen > uint64(now)) ==> err == chord.ErrKVLeaseConflict
 //@   ensures errors-are-the-documented-ones: err == nil || err == chord.ErrKVLeaseInvalidTTL || err == chord.ErrKVLeaseConflict
 //@   ensures refusal-returns-no-token: err != nil ==> token == 0
 
 //@ func (m *MemoryKV) Renew(ctx context.Context, lease []byte, ttl time.Duration, prevToken uint64) (newToken uint64, err error)
 //@   opt frame=off
+//@   opt puredyn=content
+//@   requires repOK(m)
 //@   opt rg=anyWord
 //@   safety nil,bounds
 //@   ghost now1 int64 = 0
@@ -48,13 +79,87 @@ package memory
 //@   requires ttl >= 0
 //@   ensures short-ttl-refused: (ttl - ttl % 1000000000 < 1000000000) ==> (err == chord.ErrKVLeaseInvalidTTL && newToken == 0)
 //@   ensures local-renewed-only-with-the-current-unexpired-token: err == nil ==> (cas_seen == prevToken && prevToken != 0 && uint64(now1) <= prevToken)
-//@   ensures local-renewal-installs-the-new-token: err == nil ==> (recordOf(m, str(lease)).lease.v == newToken && newToken == uint64(now2 + (ttl - ttl % 1000000000)) && newToken > uint64(now2))
+//@   ensures local-renewal-installs-the-new-token: err == nil ==> (rec(m, str(lease)).lease.v == newToken && newToken == uint64(now2 + (ttl - ttl % 1000000000)) && newToken > uint64(now2))
 //@   ensures errors-are-the-documented-ones: err == nil || err == chord.ErrKVLeaseInvalidTTL || err == chord.ErrKVLeaseExpired
 //@   ensures refusal-returns-no-token: err != nil ==> newToken == 0
 
 //@ func (m *MemoryKV) Release(ctx context.Context, lease []byte, token uint64) (err error)
 //@   opt frame=off
+//@   opt puredyn=content
+//@   requires repOK(m)
 //@   opt rg=anyWord
 //@   safety nil,bounds
-//@   ensures local-released-only-with-the-current-token: err == nil ==> (cas_seen == token && recordOf(m, str(lease)).lease.v == 0)
-//@   ensures local-wrong-token-changes-nothing: err != nil ==> (cas_seen != token && recordOf(m, str(lease)).lease.v == cas_seen && err == chord.ErrKVLeaseExpired)
+//@   ensures local-released-only-with-the-current-token: err == nil ==> (cas_seen == token && rec(m, str(lease)).lease.v == 0)
+//@   ensures local-wrong-token-changes-nothing: err != nil ==> (cas_seen != token && rec(m, str(lease)).lease.v == cas_seen && err == chord.ErrKVLeaseExpired)
+
+// ---- C16: abstract view of a key: simple value, lease token, prefix children
+//@ macro simpleOf(m *MemoryKV, k string) []byte = deref(rec(m, k).simple.v, "[]byte")
+//@ macro leaseOf(m *MemoryKV, k string) uint64 = rec(m, k).lease.v
+//@ macro hasChild(m *MemoryKV, k string, c string) bool = rec(m, k).children.keys[c]
+// every other stored key keeps its record, and no record that existed changes at all except the named one
+//@ macro otherKeysKept(m *MemoryKV, key string) bool = (forall k string {rec(m, k)} :: (k != key && old(stored(m, k))) ==> (stored(m, k) && rec(m, k) == old(rec(m, k))))
+//@ macro onlyRecordTouched(v *kvValue) bool = (forall r *kvValue {r.lease.v} :: (!fresh(r) && r != v) ==> (r.simple.v == old(r.simple.v) && r.lease.v == old(r.lease.v) && r.children == old(r.children)))
+//@      && (forall c *skipset.StringSet {c.keys} :: (!fresh(c) && c != v.children) ==> c.keys == old(c.keys))
+//@      && (forall q *[]byte {deref(q)} :: !fresh(q) ==> deref(q) == old(deref(q)))
+
+//@ func (m *MemoryKV) Put(ctx context.Context, key, value []byte) (err error)
+//@   opt puredyn=content
+//@   opt frame=off
+//@   requires repOK(m)
+//@   ensures representation-kept: repOK(m)
+//@   ensures sequentially-never-conflicts: err == nil
+//@   ensures value-stored: stored(m, str(key)) && simpleOf(m, str(key)) == value
+//@   ensures prefix-and-lease-of-the-key-untouched: old(stored(m, str(key))) ==> (leaseOf(m, str(key)) == old(leaseOf(m, str(key))) && rec(m, str(key)).children == old(rec(m, str(key)).children) && rec(m, str(key)).children.keys == old(rec(m, str(key)).children.keys))
+//@   ensures other-keys-unchanged: otherKeysKept(m, str(key)) && onlyRecordTouched(rec(m, str(key)))
+
+//@ func (m *MemoryKV) Get(ctx context.Context, key []byte) (r []byte, err error)
+//@   opt puredyn=content
+//@   opt frame=off
+//@   requires repOK(m)
+//@   ensures representation-kept: repOK(m)
+//@   ensures returns-the-stored-value: err == nil && r == simpleOf(m, str(key))
+//@   ensures absent-key-reads-nil: !old(stored(m, str(key))) ==> r == nil
+//@   ensures reads-do-not-change-values: old(stored(m, str(key))) ==> r == old(simpleOf(m, str(key)))
+//@   ensures nothing-changes: otherKeysKept(m, str(key)) && onlyRecordTouched(nil)
+
+//@ func (m *MemoryKV) Delete(ctx context.Context, key []byte) (err error)
+//@   opt puredyn=content
+//@   opt frame=off
+//@   requires repOK(m)
+//@   requires the-shared-empty-value-is-nil: empty == nil
+//@   ensures representation-kept: repOK(m)
+//@   ensures sequentially-never-conflicts: err == nil
+//@   ensures value-removed: simpleOf(m, str(key)) == nil
+//@   ensures prefix-and-lease-of-the-key-untouched: old(stored(m, str(key))) ==> (leaseOf(m, str(key)) == old(leaseOf(m, str(key))) && rec(m, str(key)).children == old(rec(m, str(key)).children) && rec(m, str(key)).children.keys == old(rec(m, str(key)).children.keys))
+//@   ensures other-keys-unchanged: otherKeysKept(m, str(key)) && onlyRecordTouched(rec(m, str(key)))
+
+//@ func (m *MemoryKV) PrefixAppend(ctx context.Context, prefix []byte, child []byte) (err error)
+//@   opt puredyn=content
+//@   opt frame=off
+//@   requires repOK(m)
+//@   ensures representation-kept: repOK(m)
+//@   ensures duplicate-child-is-a-conflict: (old(stored(m, str(prefix))) && old(hasChild(m, str(prefix), str(child)))) == (err == chord.ErrKVPrefixConflict)
+//@   ensures errors-are-the-documented-ones: err == nil || err == chord.ErrKVPrefixConflict
+//@   ensures child-present-afterwards: hasChild(m, str(prefix), str(child))
+//@   ensures other-children-unchanged: forall c string :: c != str(child) ==> (hasChild(m, str(prefix), c) == (old(stored(m, str(prefix))) && old(hasChild(m, str(prefix), c))))
+//@   ensures simple-and-lease-of-the-key-untouched: old(stored(m, str(prefix))) ==> (leaseOf(m, str(prefix)) == old(leaseOf(m, str(prefix))) && simpleOf(m, str(prefix)) == old(simpleOf(m, str(prefix))))
+//@   ensures other-keys-unchanged: otherKeysKept(m, str(prefix))
+
+//@ func (m *MemoryKV) PrefixContains(ctx context.Context, prefix []byte, child []byte) (r bool, err error)
+//@   opt puredyn=content
+//@   opt frame=off
+//@   requires repOK(m)
+//@   ensures representation-kept: repOK(m)
+//@   ensures membership: err == nil && r == (old(stored(m, str(prefix))) && old(hasChild(m, str(prefix), str(child))))
+//@   ensures nothing-changes: otherKeysKept(m, str(prefix)) && onlyRecordTouched(nil)
+
+//@ func (m *MemoryKV) PrefixRemove(ctx context.Context, prefix []byte, needle []byte) (err error)
+//@   opt puredyn=content
+//@   opt frame=off
+//@   requires repOK(m)
+//@   ensures representation-kept: repOK(m)
+//@   ensures idempotent-never-fails: err == nil
+//@   ensures child-absent-afterwards: !hasChild(m, str(prefix), str(needle))
+//@   ensures other-children-unchanged: forall c string :: c != str(needle) ==> (hasChild(m, str(prefix), c) == (old(stored(m, str(prefix))) && old(hasChild(m, str(prefix), c))))
+//@   ensures simple-and-lease-of-the-key-untouched: old(stored(m, str(prefix))) ==> (leaseOf(m, str(prefix)) == old(leaseOf(m, str(prefix))) && simpleOf(m, str(prefix)) == old(simpleOf(m, str(prefix))))
+//@   ensures other-keys-unchanged: otherKeysKept(m, str(prefix))
